@@ -822,7 +822,7 @@ func (s *TxStore) Rollback(tx mwdb.DBTransaction, height uint64) error {
 							})
 					} else {
 						if curHeight > 0 && readAddressHeight(addrVal) == curHeight {
-							err = deleteRawAddressRecord(nsAddresses, addrKey)
+							err = rollbackAddressRecord(nsAddresses, addrKey, addrVal)
 							if err != nil {
 								return err
 							}
@@ -1039,7 +1039,7 @@ func (s *TxStore) Rollback(tx mwdb.DBTransaction, height uint64) error {
 						})
 				} else {
 					if curHeight > 0 && readAddressHeight(addrVal) == curHeight {
-						err = deleteRawAddressRecord(nsAddresses, addrKey)
+						err = rollbackAddressRecord(nsAddresses, addrKey, addrVal)
 						if err != nil {
 							return err
 						}
